@@ -24,7 +24,7 @@ def fill(claim, na):
     )
     claim(
         "C06",
-        "reader/writer token-set agreement extracted from the tokenizer and quoting functions + "
+        "reader/writer token-set agreement: the reader's line-start/separator/quote triggers span a finite space of value classes over which the composed decision expression of _escape is evaluated exhaustively (decision table) + "
         "mapping-protocol wiring through the resolved class hierarchy (custom ast analysis)",
         "Decides: every character/prefix the CIF reader branches on at a line start ('#', ';', "
         "'_', 'loop_', 'data_') has a quoting branch in the writer; every separator the tokenizer "
@@ -127,7 +127,7 @@ def fill(claim, na):
     claim(
         "C13",
         "provenance (unit) type system position vs index over the methods of AnnotatedSequence; "
-        "evaluation of the defect mirror table; clip-condition extraction; Copyable contract; "
+        "exhaustive evaluation of the composed defect-mirroring expression over all 2^6 defect flag sets; clip-condition extraction; Copyable contract; "
         "getitem/setitem sibling comparison (custom ast analysis)",
         "Decides unit consistency of the position arithmetic, the defect tables and the copy "
         "contract: in AnnotatedSequence.__getitem__/__setitem__/reverse_complement the sequence is "
@@ -148,7 +148,7 @@ def fill(claim, na):
     )
     claim(
         "C17",
-        "term extraction of the change masks, wrapper forwarding-shape comparison, call-graph cycle "
+        "symbolic composition of the *_starts functions into one expression compared with the definition modulo algebraic laws, dependence of the composed result on the mode parameter under every condition, wrapper forwarding-shape comparison, call-graph cycle "
         "detection over molecules.py and the lowered bonds.pyx, control dependence of returns on "
         "boolean mode parameters (custom ast analysis)",
         "Decides: get_residue_starts ORs exactly the consecutive-atom changes of chain_id, res_id, "
@@ -275,7 +275,7 @@ def fill(claim, na):
     )
     claim(
         "C14",
-        "per-axis range-guard analysis of unchecked cell-array accesses, C type and arithmetic of "
+        "per-axis range-guard analysis of unchecked cell-array accesses from the canonical guard facts holding at each access (enclosing tests and guard clauses), C type and arithmetic of "
         "allocation sizes, dominance of shape/finite/selection checks (custom ast analysis on the "
         "lowered celllist.pyx with its C declarations)",
         "Decides guard/axis agreement and allocation bounds: every cells[a,b,c]/cell_length[a,b,c] "
@@ -335,7 +335,7 @@ def fill(claim, na):
     claim(
         "C19",
         "structural-character set agreement of the Newick parser and writer, construction-check "
-        "and field-set rules, update-shape rules of the clustering loops (custom ast analysis on "
+        "and field-set rules, guard facts and structural patterns of the clustering loops (search nest, join, retirement; custom ast analysis on "
         "lowered Cython)",
         "NARROW. Decides: every character the Newick parser gives a meaning to (brackets, comma, "
         "colon, semicolon) is refused inside labels by the writer (known finding: whitespace, which "
